@@ -346,6 +346,37 @@ def t_negative():
 				except Exception:
 					sh.nontrivial += 1
 					sh.count('must_fail_genome_lacks_attribute')
+		# genomes that share an ncbi_id under different ncbi_db values (the column is unique only per database): the signature file (unique IDs) can
+		# hold a signature for one of them only; loading must fail, or else every genome of the set must be in the database
+		for n in (2, 3, 4):
+			for shared in itertools.combinations(range(n), 2):
+				for order in ((0, 1), (1, 0)):
+					gspecs = genome_specs(n)
+					gspecs[shared[1]]['ncbi_id'] = gspecs[shared[0]]['ncbi_id']
+					gspecs[shared[order[0]]]['ncbi_db'] = 'nuccore'
+					dbdir = os.path.join(d, f'dbdup-{n}-{shared[0]}{shared[1]}-{order[0]}')
+					os.makedirs(dbdir)
+					fixtures.write_genome_db(os.path.join(dbdir, 'g.gdb'), TAXA, gspecs)
+					uniq = sorted({g['ncbi_id'] for g in gspecs})
+					for extra in (0, 1):
+						ids = uniq + [90 + x for x in range(extra)]
+						sp = os.path.join(dbdir, 's.gs')
+						if os.path.exists(sp):
+							os.unlink(sp)
+						fixtures.write_sigfile(sp, ks, (SIGS * 2)[:len(ids)], ids=np.array(ids), id_attr='ncbi_id')
+						sh.evals += 1
+						try:
+							db = ReferenceDatabase.load_from_dir(dbdir)
+						except Exception as ex:
+							sh.nontrivial += 1
+							sh.count('must_fail_shared_ncbi_id')
+							sh.outcome(['shared_ncbi_id', type(ex).__name__])
+							continue
+						got = sorted(g.key for g in db.genomes)
+						db.signatures.close(); db.session.close()
+						if got != sorted(g['key'] for g in gspecs):
+							sh.violation('incomplete-database-loaded', dict(attr='ncbi_id', n=n, why='shared_ncbi_id', shared=list(shared), nuccore=shared[order[0]], file_ids=[str(x) for x in ids]),
+							             'error, or all genomes present', dict(genomes_in_database=got))
 	sh.sample(dict(family='negative', attrs=ATTRS))
 	return sh
 
@@ -361,16 +392,18 @@ def t_dirs():
 		gspecs = genome_specs(2)
 		fixtures.write_genome_db(os.path.join(src, 'g.gdb'), TAXA, gspecs)
 		fixtures.write_sigfile(os.path.join(src, 's.gs'), ks, SIGS[:2], ids=[g['key'] for g in gspecs], id_attr='key')
-		for mask in range(64):
-			present = [it for b, it in enumerate(items) if mask >> b & 1]
-			dd = os.path.join(d, f'dir{mask}')
+		# hidden (dot-) files and other odd names carrying the same extensions, each added alone to every subset of the visible items
+		odd = [None, '.a2.gdb', '._b.db', '.c-backup.gs', '._d.h5', 'e.gdb.bak', 'f.GS', 'g h.gs', '[x].gdb', '.DS_Store']
+		for mask, extra_item in itertools.product(range(64), odd):
+			present = [it for b, it in enumerate(items) if mask >> b & 1] + ([extra_item] if extra_item else [])
+			dd = os.path.join(d, f'dir{mask}-{odd.index(extra_item)}')
 			os.makedirs(dd)
 			for it in present:
 				if it.endswith(('.gdb', '.db')):
 					shutil.copy(os.path.join(src, 'g.gdb'), os.path.join(dd, it))
 				elif it.endswith(('.gs', '.h5')):
 					shutil.copy(os.path.join(src, 's.gs'), os.path.join(dd, it))
-				elif it == 'notes.txt':
+				elif it in ('notes.txt', 'e.gdb.bak', 'f.GS', '.DS_Store'):
 					open(os.path.join(dd, it), 'w').write('x')
 				else:
 					os.makedirs(os.path.join(dd, it))
@@ -400,7 +433,7 @@ def t_dirs():
 				sh.violation('directory-contents', dict(present=p), 'error', 'loaded')
 			except Exception:
 				sh.count('dirs_refused')
-	sh.sample(dict(family='dirs', items=items, subsets=64))
+	sh.sample(dict(family='dirs', items=items, odd_names=odd[1:], subsets=64 * len(odd)))
 	return sh
 
 
